@@ -67,7 +67,7 @@ func checkFit(r *core.Run, what string, c tcell.Color, hex int32, p *labPal) boo
 }
 
 func C16(r *core.Run) {
-	r.Rule = "exhaustive: 256 palette indices vs the xterm formula; every CSS3/SVG colour keyword vs the harness's keyword table (both directions); conversions Hex/RGB/NewRGBColor/NewHexColor/TrueColor/CSS/GetColor/FromImageColor over all 2^24 values (distinct by construction); invalid/special values. FindColor vs an independent sRGB->CIELAB CIE76 computation (tolerance 1e-9) against the 8/16/88/256-entry palettes (quick: a 32^3 lattice + seeded random; thorough: all 2^24) and seeded random palettes of 1..40 colours, including runs of equal-size different palettes queried with the same colours."
+	r.Rule = "exhaustive: 256 palette indices vs the xterm formula; every CSS3/SVG colour keyword vs the harness's keyword table (both directions); conversions Hex/RGB/NewRGBColor/NewHexColor/TrueColor/CSS/GetColor/FromImageColor over all 2^24 values (distinct by construction); invalid/special values. FindColor vs an independent sRGB->CIELAB CIE76 computation (tolerance 1e-9) against the 8/16/88/256-entry palettes (quick: a 32^3 lattice + seeded random; thorough: all 2^24) and seeded random palettes of 1..40 colours, including runs of equal-size different palettes queried with the same colours, palette-indexed queries against non-identity palettes (random, monochrome, reversed, rotated, RGB-only)."
 	r.Assumptions = []string{"16 basic colours are the W3C/VGA 16; cube levels 0,95,135,175,215,255; greys 8+10k", "CIE76 on D65 CIELAB; ties within 1e-9 accepted"}
 
 	// ---- palette ------------------------------------------------------------
@@ -271,6 +271,14 @@ func C16(r *core.Run) {
 				for _, qv := range queries {
 					checkFit(r, "random", tcell.NewHexColor(qv), qv, p)
 				}
+				// palette-indexed query colours against a palette that is not the identity prefix
+				for k := 0; k < 4; k++ {
+					qi := rg.IntN(256)
+					if k == 0 {
+						qi = rg.IntN(size) // an index below the palette size
+					}
+					checkFit(r, "random-indexed-query", tcell.PaletteColor(qi), colorref.Palette(qi), p)
+				}
 				desc = append(desc, fmt.Sprintf("%d colours", size))
 			}
 			r.Case(fmt.Sprintf("rpal|%d|%v", size, queries))
@@ -279,6 +287,27 @@ func C16(r *core.Run) {
 			}
 		}
 	})
+	// fixed non-identity palettes (the monochrome one tcell itself uses, a reversed and a
+	// rotated 16-colour one) x all 256 palette-indexed queries
+	{
+		var rev, rot []tcell.Color
+		for i := 0; i < 16; i++ {
+			rev = append(rev, tcell.PaletteColor(15-i))
+			rot = append(rot, tcell.PaletteColor((i+5)%16))
+		}
+		fixed := map[string]*labPal{
+			"mono":       mkLabPal([]tcell.Color{tcell.ColorBlack, tcell.ColorWhite}),
+			"reversed16": mkLabPal(rev),
+			"rotated16":  mkLabPal(rot),
+			"rgb-only":   mkLabPal([]tcell.Color{tcell.NewHexColor(0x102030), tcell.NewHexColor(0xf0e0d0), tcell.NewHexColor(0x808000)}),
+		}
+		for name, p := range fixed {
+			for i := 0; i < 256; i++ {
+				checkFit(r, name, tcell.PaletteColor(i), colorref.Palette(i), p)
+			}
+			r.CaseN(256, 256)
+		}
+	}
 	// invalid query colour: membership only
 	for _, c := range []tcell.Color{tcell.ColorDefault, tcell.ColorReset, tcell.Color(1234)} {
 		got := tcell.FindColor(c, pals["16"].cols)
